@@ -671,6 +671,28 @@ func (c *EvalCtx) evalCall(e *Expr) CV {
 		}
 		i := c.evalInt(e.Args[1])
 		return CV{VT{B.Select(vc.heapGet(c.st, fmt.Sprintf("ghost:arg%s:%s", i.ival.String(), key)), B.Int(0))}, nil}
+	case "poolfree":
+		// poolfree(e): the value of e does not mention the contents a pooled object had when
+		// this call began (syntactic independence: no entry-heap symbol of a pooled struct class)
+		v := arg(0)
+		var terms []*Term
+		collectTerms(v.V, &terms)
+		for _, t := range terms {
+			if mentionsPoolEntry(vc, t) {
+				return CV{VT{B.False()}, nil}
+			}
+		}
+		return CV{VT{B.True()}, nil}
+	case "freshAlloc":
+		// freshAlloc(s): the slice's array was allocated during this call
+		if sl, ok := arg(0).V.(VSlice); ok {
+			for _, r := range vc.regions {
+				if r.What == "alloc" && r.Base == sl.Ptr {
+					return CV{VT{B.True()}, nil}
+				}
+			}
+		}
+		return CV{VT{B.False()}, nil}
 	case "bufLen", "bufAt":
 		// abstract bytes.Buffer model: bufLen(b), bufAt(b, i)
 		b0 := c.evalInt(e.Args[0])
@@ -1016,4 +1038,48 @@ func (vc *VC) qualifyFieldKey(f *Frame, name string) string {
 	}
 	evalFail("unknown field %q", name)
 	return ""
+}
+
+func collectTerms(v Value, out *[]*Term) {
+	switch x := v.(type) {
+	case VT:
+		*out = append(*out, x.T)
+	case VSlice:
+		*out = append(*out, x.Ptr, x.Len, x.Cap)
+	case VString:
+		*out = append(*out, x.Ptr, x.Len)
+	case VIface:
+		*out = append(*out, x.Typ, x.Data)
+	case VPtr:
+		if x.Addr != nil {
+			*out = append(*out, x.Addr)
+		}
+	case VTuple:
+		for _, e := range x.Elems {
+			collectTerms(e, out)
+		}
+	}
+}
+
+// mentionsPoolEntry: the term contains an entry-epoch heap symbol of a struct class that the
+// contract set declares as pooled (RuntimeContext.*, Option.*).
+func mentionsPoolEntry(vc *VC, t *Term) bool {
+	seen := map[*Term]bool{}
+	var walk func(t *Term) bool
+	walk = func(t *Term) bool {
+		if seen[t] {
+			return false
+		}
+		seen[t] = true
+		if t.op == "var" && strings.HasPrefix(t.name, "H0_F_") && (strings.Contains(t.name, ".RuntimeContext.") || strings.Contains(t.name, ".Option.")) {
+			return true
+		}
+		for _, a := range t.args {
+			if walk(a) {
+				return true
+			}
+		}
+		return false
+	}
+	return walk(t)
 }
